@@ -2,6 +2,7 @@ use crate::myc::constants::{ColumnFlags, ColumnType};
 use crate::myc::io::WriteMysqlExt;
 use crate::Column;
 use byteorder::{LittleEndian, WriteBytesExt};
+use std::convert::TryFrom;
 use std::io::{self, ErrorKind::Other, Write};
 
 /// Implementors of this trait can be sent as a single resultset value to a MySQL/MariaDB client.
@@ -66,21 +67,15 @@ where
 // NOTE: yes, I know the = / => distinction is ugly
 macro_rules! like_try_into {
     ($self:ident, $source:ty = $target:ty, $w:ident, $m:ident, $c:ident) => {{
-        let min = <$target>::min_value() as $source;
-        let max = <$target>::max_value() as $source;
-        if *$self <= max && *$self >= min {
-            $w.$m(*$self as $target)
-        } else {
-            Err(bad($self, $c))
+        match <$target>::try_from(*$self) {
+            Ok(v) => $w.$m(v),
+            Err(_) => Err(bad($self, $c)),
         }
     }};
     ($self:ident, $source:ty => $target:ty, $w:ident, $m:ident, $c:ident) => {{
-        let min = <$target>::min_value() as $source;
-        let max = <$target>::max_value() as $source;
-        if *$self <= max && *$self >= min {
-            $w.$m::<LittleEndian>(*$self as $target)
-        } else {
-            Err(bad($self, $c))
+        match <$target>::try_from(*$self) {
+            Ok(v) => $w.$m::<LittleEndian>(v),
+            Err(_) => Err(bad($self, $c)),
         }
     }};
 }
